@@ -16,4 +16,69 @@ theorem template_eq (c : OutputFile) : Src.render_template c = template c := rfl
 
 theorem module_eq (c : OutputFile) : Src.render_module c = module c := rfl
 
+/-! ## lemmas about the rendered text of the named parts -/
+
+theorem text_append (a b : List Piece) : text (a ++ b) = text a ++ text b := List.flatMap_append
+theorem text_append' (a b : List Piece) : text (List.append a b) = text a ++ text b := List.flatMap_append
+theorem text_cons (p : Piece) (b : List Piece) : text (p :: b) = p.text ++ text b := by
+  simp [text, List.flatMap_cons]
+theorem text_nil : text [] = [] := rfl
+
+/-- the comma-separated list the header writes after `from datetime import ` / `from pydantic import ` -/
+theorem text_commaAux : ∀ l : List Str,
+    text (forLast l (fun (i : Str) (last : Bool) =>
+      List.append [Piece.expr "i" i] (if (!last) then [Piece.lit ", "] else []))) = jjoin ", ".toList l
+  | [] => rfl
+  | [x] => by simp [forLast, jjoin, text, Piece.text]
+  | x :: y :: r => by
+    have ih := text_commaAux (y :: r)
+    rw [forLast, text_append, ih]
+    simp [jjoin, text, Piece.text]
+
+theorem text_commaList (s : PySet) : text (commaList s) = jjoin ", ".toList (jsort s) := text_commaAux _
+
+theorem text_importsEndLines (s : PySet) : text (importsEndLines s) = s.flatMap (fun i => i ++ ['\n']) := by
+  induction s with
+  | nil => rfl
+  | cons x r ih =>
+    simp only [importsEndLines, List.flatMap_cons] at ih ⊢
+    rw [text_append, ih]
+    simp [text, Piece.text]
+
+theorem count_importsEndLines (s : PySet) (i : Str) :
+    (importsEndLines s).count (Piece.expr "i" i) = s.count i := by
+  induction s with
+  | nil => rfl
+  | cons x r ih =>
+    simp only [importsEndLines, List.flatMap_cons] at ih ⊢
+    rw [List.count_append, ih, List.count_cons]
+    by_cases h : x = i
+    · subst h; simp; omega
+    · have : (Piece.expr "i" x == Piece.expr "i" i) = false := by simp [h]
+      simp [h, this]
+
+theorem text_moduleImportLines (s : PySet) :
+    text (moduleImportLines s) = (jsort s).flatMap (fun m => "import ".toList ++ m ++ ['\n']) := by
+  unfold moduleImportLines
+  induction jsort s with
+  | nil => rfl
+  | cons x r ih =>
+    simp only [List.flatMap_cons]
+    rw [text_append, ih]
+    simp [text, Piece.text]
+
+theorem count_eq_one_of_nodup {s : List Str} (hs : s.Nodup) {i : Str} (hi : i ∈ s) : s.count i = 1 := by
+  induction s with
+  | nil => cases hi
+  | cons x r ih =>
+    rw [List.nodup_cons] at hs
+    rw [List.count_cons]
+    by_cases h : x = i
+    · subst h; simp [List.count_eq_zero.mpr hs.1]
+    · have : i ∈ r := by
+        cases hi with
+        | head => exact absurd rfl h
+        | tail _ h' => exact h'
+      simp [h, ih hs.2 this]
+
 end Bp.Tpl
